@@ -14,6 +14,7 @@ import (
 	"sort"
 	"strings"
 	"sync"
+	"sync/atomic"
 	"time"
 
 	"github.com/notaryproject/notation-core-go/revocation/result"
@@ -112,6 +113,8 @@ type world struct {
 	desc   ocispec.Descriptor
 	envs   sync.Map
 	mu     sync.Mutex
+
+	observed, controls, controlsOK atomic.Int64 // cases observable through the all-log level; positive controls
 }
 
 func (w *world) chain(lw, cw int) *pki.Chain {
@@ -247,6 +250,14 @@ func (w *world) run(r *hx.Run, c caseT) {
 		stores = append(stores, "tsa:t")
 		ts.Put("tsa", "t", w.auth[1].Root.Cert)
 	}
+	if c.TSAPol != 0 {
+		// collision by construction: the store of the signing scheme's type ALSO holds every TSA root. Only tsa stores
+		// may anchor a countersignature, so this changes nothing for a correct verifier - and it lets a verifier that
+		// takes TSA roots from the wrong stores (or from all stores) pass a token the policy's tsa store does not cover.
+		for _, a := range w.auth {
+			ts.Put(caType, "s", a.Root.Cert)
+		}
+	}
 	var rvr []result.Result
 	var rverr error
 	switch c.TSARev {
@@ -280,29 +291,44 @@ func (w *world) run(r *hx.Run, c caseT) {
 		r.Violation(key, what+" | "+c.String(), c)
 	}
 	want := w.model(c)
-	if outcome == nil {
-		bad("nil-outcome", fmt.Sprint(verr))
+	// The statement is one-directional: an expired signature FAILS expiry; the authentic-timestamp validation passes
+	// ONLY IF the stated conditions hold. Those two directions are judged. The converses (an unexpired signature passes
+	// expiry, a chain that was valid passes the timestamp validation) are positive controls: counted, recorded when
+	// they do not hold, and an all-controls-failed run is an infrastructure error, never a violation. How many
+	// entries of a type the outcome lists is not fixed by the statement either.
+	if outcome == nil && verr == nil {
+		bad("nil-outcome", "Verify returned neither an outcome nor an error")
 		return
 	}
-	er := vt.ResultOf(outcome, trustpolicy.TypeExpiry)
-	tr := vt.ResultOf(outcome, trustpolicy.TypeAuthenticTimestamp)
-	if verr != nil || len(er) != 1 || len(tr) != 1 {
-		bad("all-log-level-did-not-report-both-results", fmt.Sprintf("err=%v expiry results=%d timestamp results=%d", verr, len(er), len(tr)))
+	if verr != nil {
+		// every action is log: an error here means the two validations cannot be observed through this level
+		r.Outcome("recorded:all-log-level-verification-failed(not observable)")
 		return
 	}
-	if gotFail := er[0].Error != nil; gotFail != want.ExpiryFails {
-		if gotFail {
-			bad("expiry/failed-although-not-expired:"+expiries[c.Expiry].Name, er[0].Error.Error())
+	w.observed.Add(1)
+	expFailed, tsListed, tsPassed := readResults(outcome)
+	if want.ExpiryFails && !expFailed {
+		bad("expiry/passed-although-expired:"+expiries[c.Expiry].Name, "expiry validation passed (or no failing expiry result is reported)")
+	}
+	if !want.ExpiryFails {
+		w.controls.Add(1)
+		if expFailed {
+			r.Outcome("recorded:control/expiry-failed-although-not-expired:" + expiries[c.Expiry].Name)
 		} else {
-			bad("expiry/passed-although-expired:"+expiries[c.Expiry].Name, "expiry validation passed")
+			w.controlsOK.Add(1)
 		}
 	}
-	gotPass := tr[0].Error == nil
-	switch {
-	case gotPass && !want.TSPasses:
+	gotPass := tsListed && tsPassed
+	if gotPass && !want.TSPasses {
 		bad("timestamp/passed:"+slug(want.Why), "authentic-timestamp validation passed; model: "+want.Why)
-	case !gotPass && want.TSPasses:
-		bad("timestamp/failed:"+slug(want.Why), fmt.Sprintf("authentic-timestamp validation failed (%v); model: %s", tr[0].Error, want.Why))
+	}
+	if want.TSPasses {
+		w.controls.Add(1)
+		if !gotPass {
+			r.Outcome("recorded:control/timestamp-failed-although-model-passes:" + slug(want.Why))
+		} else {
+			w.controlsOK.Add(1)
+		}
 	}
 	// the TSA revocation validator is consulted only for a countersignature that got that far, and with the TSA chain
 	for _, cl := range tsaValidator.Calls {
@@ -326,8 +352,11 @@ func (w *world) run(r *hx.Run, c caseT) {
 			r.Eval(1)
 			_, e2 := v2.Verify(ctx, w.desc, w.envelope(c), notation.VerifierVerifyOptions{ArtifactReference: "reg.io/r@" + w.desc.Digest.String(), SignatureMediaType: forge.Formats[c.Format]})
 			wantOK := want.TSPasses && !want.ExpiryFails
-			if (e2 == nil) != wantOK {
+			if e2 == nil && !wantOK {
 				bad(fmt.Sprintf("strict/verdict-accepted=%v-model-accepted=%v", e2 == nil, wantOK), fmt.Sprintf("strict level: err=%v; model: %s, expiry fails=%v", e2, want.Why, want.ExpiryFails))
+			}
+			if e2 != nil && wantOK {
+				r.Outcome("recorded:control/strict-level-rejected-although-model-accepts")
 			}
 		}
 	}
@@ -444,15 +473,39 @@ func (w *world) clockBoundaries(r *hx.Run) {
 				er, tr := vt.ResultOf(outcome, trustpolicy.TypeExpiry), vt.ResultOf(outcome, trustpolicy.TypeAuthenticTimestamp)
 				cc := clockCase{c, nil}
 				where := fmt.Sprintf("clock frozen at %s (%s) | %s", p.at.Format(time.RFC3339), p.name, c.String())
-				if outcome == nil || verr != nil || len(er) != 1 || len(tr) != 1 {
-					r.Violation("clock/all-log-level-did-not-report-both-results:boundary", fmt.Sprintf("err=%v | %s", verr, where), cc)
+				_, _ = er, tr
+				if outcome == nil && verr == nil {
+					r.Violation("clock/nil-outcome:boundary", where, cc)
 					continue
 				}
-				if got := er[0].Error != nil; p.judgeE && got != p.expFails {
-					r.Violation(fmt.Sprintf("clock/boundary-expiry-fails=%v-want=%v:%s", got, p.expFails, p.name[:strings.IndexAny(p.name, "+-")]), where, cc)
+				if verr != nil {
+					r.Outcome("recorded:all-log-level-verification-failed(not observable)")
+					continue
 				}
-				if got := tr[0].Error == nil; p.judgeT && got != p.tsPasses {
-					r.Violation(fmt.Sprintf("clock/boundary-timestamp-passes=%v-want=%v:%s", got, p.tsPasses, p.name[:strings.IndexAny(p.name, "+-")]), fmt.Sprintf("%s: %v", where, tr[0].Error), cc)
+				w.observed.Add(1)
+				expFailed, tsListed, tsPassed := readResults(outcome)
+				pname := p.name[:strings.IndexAny(p.name, "+-")]
+				// judged directions only: expired => fails; passes => chain valid at the verification instant
+				if p.judgeE && p.expFails && !expFailed {
+					r.Violation(fmt.Sprintf("clock/boundary-expiry-fails=%v-want=%v:%s", expFailed, p.expFails, pname), where, cc)
+				}
+				if p.judgeE && !p.expFails {
+					w.controls.Add(1)
+					if expFailed {
+						r.Outcome("recorded:control/boundary-expiry-failed-one-second-before-expiry")
+					} else {
+						w.controlsOK.Add(1)
+					}
+				}
+				if got := tsListed && tsPassed; p.judgeT && got && !p.tsPasses {
+					r.Violation(fmt.Sprintf("clock/boundary-timestamp-passes=%v-want=%v:%s", got, p.tsPasses, pname), where, cc)
+				} else if p.judgeT && p.tsPasses {
+					w.controls.Add(1)
+					if !got {
+						r.Outcome("recorded:control/boundary-timestamp-failed-inside-validity")
+					} else {
+						w.controlsOK.Add(1)
+					}
 				}
 				r.Outcome("clock-boundary: " + p.name[:strings.IndexAny(p.name, "+-")])
 				r.Nontrivial(fmt.Sprintf("clockb|%d|%d|%s", f, sc, p.name))
@@ -497,19 +550,61 @@ func (w *world) clockPair(r *hx.Run, c caseT, offs []time.Duration) {
 			r.Violation("clock/"+key, what+" | "+where+" | "+c.String(), clockCase{c, offs})
 		}
 		er, tr := vt.ResultOf(outcome, trustpolicy.TypeExpiry), vt.ResultOf(outcome, trustpolicy.TypeAuthenticTimestamp)
-		if outcome == nil || verr != nil || len(er) != 1 || len(tr) != 1 {
-			bad("all-log-level-did-not-report-both-results", fmt.Sprintf("err=%v", verr))
+		_, _ = er, tr
+		if outcome == nil && verr == nil {
+			bad("nil-outcome", "neither outcome nor error")
 			return
 		}
-		if got := er[0].Error != nil; got != want.ExpiryFails {
-			bad(fmt.Sprintf("expiry-fails=%v-model=%v:step%d", got, want.ExpiryFails, step+1), fmt.Sprintf("verification instant now%+v: expiry result error=%v", off, er[0].Error))
+		if verr != nil {
+			r.Outcome("recorded:all-log-level-verification-failed(not observable)")
+			return
 		}
-		if got := tr[0].Error == nil; got != want.TSPasses {
-			bad(fmt.Sprintf("timestamp-passes=%v-model=%v:step%d", got, want.TSPasses, step+1), fmt.Sprintf("verification instant now%+v: authentic-timestamp error=%v; model: %s", off, tr[0].Error, want.Why))
+		w.observed.Add(1)
+		expFailed, tsListed, tsPassed := readResults(outcome)
+		if want.ExpiryFails && !expFailed {
+			bad(fmt.Sprintf("expiry-fails=%v-model=%v:step%d", expFailed, want.ExpiryFails, step+1), fmt.Sprintf("verification instant now%+v: no failing expiry result", off))
+		}
+		if !want.ExpiryFails {
+			w.controls.Add(1)
+			if expFailed {
+				r.Outcome(fmt.Sprintf("recorded:control/clock-expiry-failed-although-not-expired:step%d", step+1))
+			} else {
+				w.controlsOK.Add(1)
+			}
+		}
+		got := tsListed && tsPassed
+		if got && !want.TSPasses {
+			bad(fmt.Sprintf("timestamp-passes=%v-model=%v:step%d", got, want.TSPasses, step+1), fmt.Sprintf("verification instant now%+v: authentic-timestamp passed; model: %s", off, want.Why))
+		}
+		if want.TSPasses {
+			w.controls.Add(1)
+			if !got {
+				r.Outcome(fmt.Sprintf("recorded:control/clock-timestamp-failed-although-model-passes:step%d", step+1))
+			} else {
+				w.controlsOK.Add(1)
+			}
 		}
 		r.Outcome(fmt.Sprintf("clock: step%d expiry-fails=%v ts-passes=%v", step+1, want.ExpiryFails, want.TSPasses))
 		r.Nontrivial(fmt.Sprintf("clock|%+v|%v|%d", c, offs, step))
 	}
+}
+
+// readResults: expiry failed = some expiry entry carries an error; timestamp listed / passed = at least one
+// authentic-timestamp entry is reported / none of them carries an error.
+func readResults(o *notation.VerificationOutcome) (expFailed, tsListed, tsPassed bool) {
+	for _, x := range vt.ResultOf(o, trustpolicy.TypeExpiry) {
+		if x.Error != nil {
+			expFailed = true
+		}
+	}
+	tr := vt.ResultOf(o, trustpolicy.TypeAuthenticTimestamp)
+	tsListed, tsPassed = len(tr) > 0, true
+	for _, x := range tr {
+		if x.Error != nil {
+			tsPassed = false
+		}
+	}
+	return
 }
 
 func slug(s string) string {
@@ -610,5 +705,11 @@ func main() {
 	}, nil)
 	// sequential: the displaced clock is process-global
 	w.clockFamily(r)
+	r.Extra["observable_through_all_log_level"] = w.observed.Load()
+	r.Extra["positive_controls"] = w.controls.Load()
+	r.Extra["positive_controls_passed"] = w.controlsOK.Load()
+	if w.observed.Load() == 0 || (w.controls.Load() > 0 && w.controlsOK.Load() == 0) {
+		r.Infra("vacuous run: %d cases observable, %d of %d positive controls (unexpired passes expiry, valid chain passes the timestamp validation) held", w.observed.Load(), w.controlsOK.Load(), w.controls.Load())
+	}
 	r.Finish()
 }
